@@ -1,4 +1,5 @@
 #!/bin/bash
+export GOVC_EVIDENCE_DIR=/tmp/wt/evidence-scratch
 # seed_eval.sh <agent worktree> <sub (a|b)> <property id> [more property ids to run...]
 # 1. confirm the seeded change in a fresh scratch worktree: suite passes with it, demo fails with it, demo passes without it
 # 2. copy it to /verif/seeded/<pid>-<sub>/  3. apply to /repo, run the checks, revert
